@@ -11,6 +11,8 @@
 #define XDYNAMIC_BITSET_HPP
 
 #include <climits>
+#include <cstdio>
+#include <stdexcept>
 #include <type_traits>
 #include <vector>
 #include <initializer_list>
@@ -647,15 +649,31 @@ namespace xtl
     template <class B>
     inline auto xdynamic_bitset_base<B>::at(size_type i) -> reference
     {
-        // TODO add real check, remove m_buffer.at ...
-        return reference(m_buffer.at(block_index(i)), bit_index(i));
+        if (i >= m_size)
+        {
+#if defined(XTL_NO_EXCEPTIONS)
+            std::fprintf(stderr, "xdynamic_bitset::at: index out of range\n");
+            std::terminate();
+#else
+            throw std::out_of_range("xdynamic_bitset::at: index out of range");
+#endif
+        }
+        return reference(m_buffer[block_index(i)], bit_index(i));
     }
 
     template <class B>
     inline auto xdynamic_bitset_base<B>::at(size_type i) const -> const_reference
     {
-        // TODO add real check, remove m_buffer.at ...
-        return const_reference(m_buffer.at(block_index(i)), bit_index(i));
+        if (i >= m_size)
+        {
+#if defined(XTL_NO_EXCEPTIONS)
+            std::fprintf(stderr, "xdynamic_bitset::at: index out of range\n");
+            std::terminate();
+#else
+            throw std::out_of_range("xdynamic_bitset::at: index out of range");
+#endif
+        }
+        return const_reference(m_buffer[block_index(i)], bit_index(i));
     }
 
     template <class B>
